@@ -126,7 +126,8 @@ def owned (o : Obj) : List String :=
   | some f => f.destroys
   | none => []
 
-/-- Every owned field that reinit overwrites is destroyed first (nothing leaks across runs). -/
+/-- Every owned field that reinit overwrites has its old value destroyed in reinit (directly or through a
+    temporary): nothing leaks across runs. -/
 def reinitFreesOwned (o : Obj) : Bool :=
   (reinitStores o).all (fun s => !(owned o).contains s.field || s.destroyedFirst)
 
